@@ -6,7 +6,9 @@ Space: page models built from finite field alphabets (first element = default):
      each through the string API and through a file + the PageLayout(file=...) constructor (where a foreign region order
      has to be sorted on load);
  (B) every combination of <= D non-default field values over the structure 2 regions x 2 lines (deviation bounding);
- (C) the complete cartesian product of the line-field alphabets on a single line.
+ (C) the complete cartesian product of the line-field alphabets on a single line;
+ (U) "any XML-legal Unicode": the complete Char production of XML 1.0 as transcription and region text (blocks of 4096 code points,
+     lines of 256), and every boundary code point of the character classes alone / between two letters.
 
 Oracle: reference model of the documented rounding (coordinates np.round -> int, heights %.1f, confidence %.3f, index =
 stored or position, text identical incl. absent vs empty), stable order by reading index, and the export fixpoint.
@@ -20,8 +22,8 @@ ID = 'C01'
 
 MANIFEST = dict(
     technique='explicit-state enumeration of page models (all structures x all reading orders; deviation-bounded field combinations; full field product on one line) x both PAGE versions; real to_pagexml_string / from_pagexml_string / PageLayout(file=) vs a rounding reference model and the export fixpoint',
-    text='Bounded exhaustive: every page of 0-3 regions x 0-2 lines with every reading order (absent, empty, every partial and complete order, unknown ids) in both PAGE versions via string and file/constructor paths; every combination of <= 2 (quick) / 3 (thorough) non-default field values on a 2x2 page; the full product of baseline x polygon x heights x transcription (17 Unicode classes) x confidence x index alphabets on one line. The re-loaded page must equal the reference model (documented rounding, absent vs empty text, order by reading index), and export(import(export(import(export(p))))) must equal export(import(export(p))) modulo timestamps. Added sub-sweeps: point lists held as python lists / int32 / float32 arrays, explicitly closed rings, white-space-only transcriptions, zero and sub-precision heights, a page of 12 regions x 12 lines with reading orders moving r10-r12, a 12-point baseline without stored heights, and a second import after the first one was edited in place. In the quick tier the one-line product is heights x default text fields plus text x confidence x index x two heights; the thorough tier runs the full product. A page that has been exported is exported again after its region list was re-arranged (reading order unchanged).',
-    note='Characters outside the 17-entry transcription alphabet, pages larger than 3x2 and PAGE files of other tools (Point children, legacy heights) are not explored; absent heights are guessed on load with the seeded RNG (presence + fixpoint only).',
+    text='Bounded exhaustive: every page of 0-3 regions x 0-2 lines with every reading order (absent, empty, every partial and complete order, unknown ids) in both PAGE versions via string and file/constructor paths; every combination of <= 2 (quick) / 3 (thorough) non-default field values on a 2x2 page; the full product of baseline x polygon x heights x transcription (17 Unicode classes) x confidence x index alphabets on one line. The re-loaded page must equal the reference model (documented rounding, absent vs empty text, order by reading index), and export(import(export(import(export(p))))) must equal export(import(export(p))) modulo timestamps. Added sub-sweeps: point lists held as python lists / int32 / float32 arrays, explicitly closed rings, white-space-only transcriptions, zero and sub-precision heights, a page of 12 regions x 12 lines with reading orders moving r10-r12, a 12-point baseline without stored heights, and a second import after the first one was edited in place. In the quick tier the one-line product is heights x default text fields plus text x confidence x index x two heights; the thorough tier runs the full product. A page that has been exported is exported again after its region list was re-arranged (reading order unchanged). Transcription and region text additionally run over the COMPLETE Char production of XML 1.0 (all 1 112 033 legal code points, 4096 per page / 256 per line, both versions), and every boundary code point (ends of the Char ranges, first / last of every plane incl. the plane-end code points U+nFFFE/U+nFFFF, ends of the control / noncharacter / private-use blocks, every white-space character) also stands alone as the whole text and between two letters; a lost character is reported by its class.',
+    note='Every XML-legal character is covered in ascending runs and the boundary characters alone, but arbitrary character sequences beyond the 21-entry transcription alphabet, pages larger than 3x2 and PAGE files of other tools (Point children, legacy heights) are not explored; absent heights are guessed on load with the seeded RNG (presence + fixpoint only).',
     ref='3/C01')
 
 BASELINES = [
@@ -54,6 +56,58 @@ PIDS = ['page.jpg', 'dir/ä b&<.png']
 LINE_FIELDS = [('bl', BASELINES), ('poly', POLYGONS), ('h', HEIGHTS), ('t', TEXTS), ('c', CONFS), ('idx', INDEXES)]
 REGION_FIELDS = [('type', RTYPES), ('rpoly', POLYGONS), ('rtext', RTEXTS)]
 BOUNDS = {'quick': dict(dev=2, max_regions=3), 'thorough': dict(dev=3, max_regions=3)}
+# "any XML-legal Unicode": the Char production of XML 1.0 (fifth edition, section 2.2), written down from the standard
+XML_CHAR_RANGES = [(0x9, 0xA), (0xD, 0xD), (0x20, 0xD7FF), (0xE000, 0xFFFD), (0x10000, 0x10FFFF)]
+CP_BLOCK, CP_LINE = 4096, 256        # code points per page / per line of the complete sweep
+
+
+def xml_legal(c):
+    return any(lo <= c <= hi for lo, hi in XML_CHAR_RANGES)
+
+
+def boundary_code_points():
+    """the legal code points on both sides of every class boundary: the ends of every range of the Char production, the first / last two of
+    every plane, the ends of the control / noncharacter / surrogate / private-use / specials blocks, every Unicode White_Space character"""
+    cps = set()
+    for lo, hi in XML_CHAR_RANGES:
+        cps.update((lo, lo + 1, hi - 1, hi))
+    for plane in range(17):
+        b = plane << 16
+        cps.update((b, b + 1, b + 0xFFFC, b + 0xFFFD, b + 0xFFFE, b + 0xFFFF))
+    for lo, hi in [(0x7F, 0x9F), (0xFDD0, 0xFDEF), (0xD800, 0xDFFF), (0xE000, 0xF8FF), (0xFFF0, 0xFFFF), (0xFE00, 0xFE0F), (0xF0000, 0xFFFFD),
+                   (0x100000, 0x10FFFD), (0xE0000, 0xE007F), (0x2000, 0x200F), (0x2028, 0x202F), (0x205F, 0x2064), (0xFEFF, 0xFEFF)]:
+        cps.update((lo - 1, lo, hi, hi + 1))
+    cps.update((0x85, 0xA0, 0xAD, 0x1680, 0x180E, 0x3000, 0x061C))
+    cps.update(range(0x2000, 0x200B))
+    return sorted(c for c in cps if 0 <= c <= 0x10FFFF and xml_legal(c))
+
+
+def text_of(t, alphabet):
+    """a text of the model: an index into the alphabet, or ['cp', lo, hi(, 1)] = every XML-legal code point of [lo, hi) in ascending order"""
+    if isinstance(t, (list, tuple)):
+        body = ''.join(chr(c) for c in range(t[1], t[2]) if xml_legal(c))
+        return 'a' + body + 'b' if len(t) > 3 and t[3] else body             # (optionally between two letters)
+    return alphabet[t]
+
+
+def code_point_class(c):
+    import unicodedata
+    if (c & 0xFFFF) >= 0xFFFE:
+        return 'plane-end-noncharacter'
+    if 0xFDD0 <= c <= 0xFDEF:
+        return 'bmp-noncharacter'
+    return 'category-' + unicodedata.category(chr(c)) + ('-astral' if c > 0xFFFF else '')
+
+
+def text_difference_class(want, got):
+    """the class of the first (lowest) code point of `want` that `got` no longer has as often; 'altered' if none is missing"""
+    import collections
+    if not isinstance(want, str) or not isinstance(got, str):
+        return 'absent'
+    missing = collections.Counter(want) - collections.Counter(got)
+    if not missing:
+        return 'altered'
+    return code_point_class(min(ord(ch) for ch in missing))
 BOUNDS['replay'] = BOUNDS['quick']
 
 
@@ -97,6 +151,9 @@ def shards(tier):
         for po in range(len(POLYGONS)):
             out.append({'kind': 'C', 'bl': bl, 'poly': po})
     out.append({'kind': 'many'})
+    for plane in range(17):
+        out.append({'kind': 'chars', 'plane': plane})
+    out.append({'kind': 'chars-alone'})
     return out
 
 
@@ -151,6 +208,35 @@ def run_shard(shard, ctx, tier):
             ln = dict(default_line(), bl=len(BASELINES), poly=len(POLYGONS), h=HEIGHTS.index(None))
             guarded_check(mod, {'pid': 0, 'regions': [{'type': 0, 'rpoly': 0, 'rtext': 0, 'lines': [ln, default_line()]}], 'ro': None,
                                 'ver': ver, 'via': 'string'}, ctx)
+    elif shard['kind'] == 'chars':
+        # the COMPLETE Char production of XML 1.0: every legal code point of the plane, 4096 per page, 256 per line (in ascending order, so
+        # that every character also stands next to its neighbours of the same block), the whole block also as the region text
+        base = shard['plane'] << 16
+        for lo in range(base, base + 0x10000, CP_BLOCK):
+            legal = [c for c in range(lo, lo + CP_BLOCK) if xml_legal(c)]
+            lines, k = [], 0
+            while k < len(legal):
+                chunk = legal[k:k + CP_LINE]
+                k += CP_LINE
+                # (a chunk never spans an illegal gap: cut it there)
+                cut = next((j for j in range(1, len(chunk)) if chunk[j] != chunk[j - 1] + 1), None)
+                if cut is not None:
+                    k -= len(chunk) - cut
+                    chunk = chunk[:cut]
+                lines.append(dict(default_line(), t=['cp', chunk[0], chunk[-1] + 1]))
+            if not lines:
+                continue
+            for ver in (0, 1):
+                guarded_check(mod, {'pid': 0, 'regions': [{'type': 0, 'rpoly': 0, 'rtext': ['cp', lo, lo + CP_BLOCK], 'lines': lines}], 'ro': None,
+                                    'ver': ver, 'via': 'string'}, ctx)
+    elif shard['kind'] == 'chars-alone':
+        # every boundary code point alone as the whole transcription / region text, and between two letters
+        for c in boundary_code_points():
+            for ver in (0, 1):
+                guarded_check(mod, {'pid': 0, 'regions': [{'type': 0, 'rpoly': 0, 'rtext': ['cp', c, c + 1],
+                                                           'lines': [dict(default_line(), t=['cp', c, c + 1]),
+                                                                     dict(default_line(), t=['cp', c, c + 1, 1])]}], 'ro': None,
+                                    'ver': ver, 'via': 'string', 'alone': 1}, ctx)
     elif shard['kind'] == 'B':
         sl = slots_2x2()
         d, first = shard['dev'], shard['first']
@@ -211,11 +297,11 @@ def build(case):
     idp = case.get('idp', '')
     for ri, r in enumerate(case['regions']):
         reg = RegionLayout(f'{idp}r{ri + 1}', container(POLYGONS[r['rpoly']], ck), region_type=RTYPES[r['type']])
-        reg.transcription = RTEXTS[r['rtext']]
+        reg.transcription = text_of(r['rtext'], RTEXTS)
         for li, l in enumerate(r['lines']):
             reg.lines.append(TextLine(id=f'{idp}r{ri + 1}-l{li + 1}', baseline=container((BASELINES + [LONG_BASELINE])[l['bl']], ck),
                                       polygon=container((POLYGONS + [WEDGE_POLYGON])[l['poly']], ck), heights=heights_value(l['h']),
-                                      transcription=TEXTS[l['t']], transcription_confidence=CONFS[l['c']], index=INDEXES[l['idx']]))
+                                      transcription=text_of(l['t'], TEXTS), transcription_confidence=CONFS[l['c']], index=INDEXES[l['idx']]))
         page.regions.append(reg)
     if case['ro'] is not None:
         page.reading_order = {k: v for k, v in case['ro']}
@@ -233,14 +319,14 @@ def expected(case):
         lines = []
         for li, l in enumerate(r['lines']):
             h = heights_value(l['h'])
-            t = TEXTS[l['t']]
+            t = text_of(l['t'], TEXTS)
             c = CONFS[l['c']]
             lines.append({'id': f'{case.get("idp", "")}r{ri + 1}-l{li + 1}', 'index': INDEXES[l['idx']] if INDEXES[l['idx']] is not None else li,
                           'baseline': rnd((BASELINES + [LONG_BASELINE])[l['bl']]), 'polygon': rnd((POLYGONS + [WEDGE_POLYGON])[l['poly']]),
                           'heights': None if h is None else [float(f'{h[0]:.1f}'), float(f'{h[1]:.1f}')],
                           'text': t, 'conf': None if (c is None or t is None) else float(f'{c:.3f}')})
         regs.append({'id': f'{case.get("idp", "")}r{ri + 1}', 'type': RTYPES[r['type']], 'polygon': rnd(POLYGONS[r['rpoly']]),
-                     'text': RTEXTS[r['rtext']], 'lines': lines})
+                     'text': text_of(r['rtext'], RTEXTS), 'lines': lines})
     if case['ro'] is not None:
         ro = {k: v for k, v in case['ro']}
         regs = sorted(regs, key=lambda g: ro.get(g['id'], float('inf')))     # stable
@@ -300,6 +386,7 @@ def field_of(path):
 def check_case(case, ctx):
     from pero_ocr.core.layout import PageLayout, PAGEVersion
     import lxml.etree as ET
+    import re
     ver = [PAGEVersion.PAGE_2019_07_15, PAGEVersion.PAGE_2013_07_15][case['ver']]
     page = build(case)
     want = expected(case)
@@ -308,6 +395,15 @@ def check_case(case, ctx):
         ctx.tag('more-than-nine-regions-and-lines')
     if case.get('cont'):
         ctx.tag('other-point-containers')
+    swept = [l['t'] for r in case['regions'] for l in r['lines'] if isinstance(l['t'], list)]
+    if swept:
+        cps = [c for t in swept if len(t) == 3 for c in range(t[1], t[2]) if xml_legal(c)]
+        if case.get('alone'):
+            ctx.tag('boundary-code-point-alone-as-the-whole-text')
+        else:
+            ctx.tag('xml-legal-code-points-swept', len(cps))
+        if any(c > 0xFFFF and (c & 0xFFFF) >= 0xFFFE for c in cps):
+            ctx.tag('plane-end-code-points-of-the-astral-planes')
     K = f'{ID}'
     desc = f'page {case}'
     s1 = page.to_pagexml_string(version=ver)
@@ -351,6 +447,15 @@ def check_case(case, ctx):
             key = f'{K}/reading-order-not-applied/{case["via"]}'
         else:
             key = f'{K}/reload-differs/{fld}'
+        if swept and fld == 'text':
+            # which class of characters did not survive: look the two texts up again
+            w_, g_ = want, got
+            for part in re.findall(r'\.([a-z]+)|\[(\d+)\]', path):
+                w_, g_ = (w_[part[0]], g_[part[0]]) if part[0] else (w_[int(part[1])], g_[int(part[1])])
+            key = f'{K}/reload-differs/text/{text_difference_class(w_, g_)}'
+            msg = f'{path}: ' + (f'{g_!r} instead of {w_!r}' if len(w_) < 40 else
+                                 'lost ' + ' '.join(f'U+{ord(ch):04X}' for ch in sorted(set(w_) - set(g_ or ''))[:12]))
+            desc = f'page {str(case)[:600]}'
         ctx.violation('reload-yields-the-same-page', key, f'{desc}: {msg}')
         return
     if case['ro'] is not None:
@@ -436,7 +541,9 @@ def describe(tier):
         'bounds': BOUNDS[tier],
         'alphabets': {'baselines': BASELINES, 'polygons': POLYGONS, 'heights': [str(h) for h in HEIGHTS], 'texts': [repr(t) for t in TEXTS],
                       'confidences': [str(c) for c in CONFS], 'indexes': [str(i) for i in INDEXES], 'region_types': [str(t) for t in RTYPES],
-                      'region_texts': [repr(t) for t in RTEXTS], 'page_ids': PIDS},
+                      'region_texts': [repr(t) for t in RTEXTS], 'page_ids': PIDS,
+                      'xml_char_ranges': [[hex(a), hex(b)] for a, b in XML_CHAR_RANGES],
+                      'boundary_code_points': [f'U+{c:04X}' for c in boundary_code_points()]},
         'assumptions': ['a reading order of None and an empty one are equivalent', 'conf is only stored together with a transcription'],
-        'min_nontrivial': 100, 'required_tags': ['page-exported-again-after-its-regions-were-rearranged', 'more-than-nine-regions-and-lines', 'other-point-containers', 'reading-order-permutes', 'two-or-more-non-default-fields'],
+        'min_nontrivial': 100, 'required_tags': ['xml-legal-code-points-swept', 'boundary-code-point-alone-as-the-whole-text', 'plane-end-code-points-of-the-astral-planes', 'page-exported-again-after-its-regions-were-rearranged', 'more-than-nine-regions-and-lines', 'other-point-containers', 'reading-order-permutes', 'two-or-more-non-default-fields'],
     }
